@@ -297,7 +297,7 @@ def evaluate(case, futs):
     return Result(ok=ok, msg=msg, coq=coq, key=_key(program) if nontrivial else None, obs=obs, tags=tags)
 
 
-OPTIONAL_KINDS = ["obs", "private", "snoozer", "residual", "risk", "condition", "births", "tables", "stepmod", "mortality", "pipes"]
+OPTIONAL_KINDS = ["obs", "private", "swallow", "snoozer", "residual", "risk", "condition", "births", "tables", "stepmod", "mortality", "pipes"]
 
 
 def _program_ok(p):
@@ -343,7 +343,7 @@ def shrink_program(p):
                 yield q
     for i, c in enumerate(p["components"]):
         for key, off in (("special", []), ("nan_bin", None), ("nan_exposure", 0), ("empty_calls", False), ("triggered", False),
-                         ("every", 0), ("mods", []), ("pafs", []), ("schedule", None), ("use_exposure", False), ("snooze", False)):
+                         ("every", 0), ("conflict_at", None), ("lifecycle", False), ("setup_dups", False), ("mods", []), ("pafs", []), ("schedule", None), ("use_exposure", False), ("snooze", False)):
             if c.get(key) and c.get(key) != off:
                 q = copy.deepcopy(p)
                 if key == "schedule":
